@@ -115,7 +115,7 @@ def run(ctx):
     hs = []
     for i, h in enumerate(chosen):
         k = kinds[i % len(kinds)] if (not quick or i % 5 == 0) else "P256"
-        cfg = {"kind": k, "enc": rnd.choice(ENC_FOR[k]), "kex": rnd.choice(KEX_FOR[k]), "cipher": rnd.choice(CIPHERS), "rvinfo": rnd.random() < 0.5}
+        cfg = {"kind": k, "enc": rnd.choice(ENC_FOR[k]), "kex": rnd.choice(KEX_FOR[k]), "cipher": rnd.choice(CIPHERS), "rvinfo": rnd.random() < 0.5, "mods": rnd.choice([0, 1, 1, 2])}
         hs.append({"cfg": cfg, "actions": [to_action(x) for x in h]})
     wd = ctx.sub("lreplay")
     hp = os.path.join(wd, "histories.json")
